@@ -52,7 +52,7 @@ ORDER: dict = {}
 
 def trace_call_facts(m):
     ORDER.clear()
-    fd = m.func(FN + ".trace_call")
+    fd = m.inlined(m.func(FN + ".trace_call"))    # a placeholder-making helper is seen through
     varargs = fd.args.vararg.arg if fd.args.vararg else None
     kwargs = fd.args.kwarg.arg if fd.args.kwarg else None
     if not (varargs and kwargs):
@@ -398,7 +398,8 @@ def r_namespace(c):
 
 
 def _ret_templates_trace(m):
-    fd = m.func(FN + ".trace_call")
+    # a classifying helper that returns (return type, returns) is seen through
+    fd = m.split_tuples(m.inlined(m.func(FN + ".trace_call")))
     out = {}
     from pta.pat import find as _find
     mk = _find(fd, "$f = FunctionDefinition($$names, $rt, constantdict($rets), tags=$$t)")
